@@ -22,6 +22,7 @@ LIABILITY, WHETHER IN AN ACTION OF CONTRACT, TORT OR OTHERWISE, ARISING FROM,
 OUT OF OR IN CONNECTION WITH THE SOFTWARE OR THE USE OR OTHER DEALINGS IN
 THE SOFTWARE.
 """
+import operator
 from typing import (
     TYPE_CHECKING,
     Any,
@@ -220,6 +221,12 @@ def broadcast_binary_op(a1: ArrayOrScalar, a2: ArrayOrScalar,
     # that we are passing a pytato array to numpy. Luckily, np.result_type
     # only looks at the dtype of input arrays as of numpy v2.1.
     result_dtype = get_result_type(a1, a2)
+
+    if result_dtype == np.bool_ and op is operator.add:
+        # numpy: the sum of booleans is their logical or (an integer sum
+        # would be 2 wherever the expression is inlined into wider arithmetic)
+        def op(x: ScalarExpression, y: ScalarExpression) -> ScalarExpression:
+            return prim.LogicalOr((x, y))
 
     bindings: dict[str, Array] = {}
 
